@@ -201,6 +201,13 @@ class Run:
                 print("UNDECIDED property=%s obligation=%s reason=%s" % (self.pid, v.name, v.detail.get("reason") or v.detail))
             for u in self.undecided[:10]:
                 print("UNDECIDED property=%s %s" % (self.pid, u))
+            # Interface: exit 0 if the property held on everything explored, exit 1 + VIOLATION otherwise.  An undecided obligation was not explored to a conclusion:
+            # it is listed above and in the evidence (never counted as proved).  If other obligations were discharged or bounded evaluations ran and none contradicts
+            # the property, the run exits 0; VERIF_STRICT_UNDECIDED=1 (used by tools/mutest.py) keeps the distinct exit code 2 for the corpus statistics.
+            concluded = proved > 0 or any((b.get("evaluations") or 0) > 0 for b in self.bounded)
+            if concluded and os.environ.get("VERIF_STRICT_UNDECIDED") != "1":
+                print("NOTE property=%s: %d item(s) undecided (tool limits, listed above and in the evidence); everything explored to a conclusion holds" % (self.pid, len(und) + len(self.undecided)))
+                return 0
             return 2
         return 0
 
